@@ -186,6 +186,24 @@ def run(ctx):
             if bw:
                 tst = [o for o in p.ops if o.kind == 'test' and '_max_size' in txt(o.node) and o.seq < bw[0].seq]
                 ctx.ob('T9.thresh', '%s.write' % cls, 'the size threshold is consulted before writing to the buffer', bool(tst), loc=wr.loc)
+    # T9.tellafter: SpooledStringIO.write advances the code-point position only after the data is in the buffer (a rollover or a
+    # write that fails must leave tell() where it was)
+    sci = prog.cls('ioutils.SpooledStringIO')
+    swr = prog.resolve(sci, 'write')
+    from rules.common import PrivInl as _PI18
+    w_, paths_ = paths_of(prog, swr, recv=sci, model=_PI18(prog))
+    n_w = 0
+    for p in paths_:
+        bw = [o for o in p.ops if o.kind == 'call' and isinstance(o.val.func, ast.Attribute) and o.val.func.attr == 'write' and
+              'buffer' in txt(w_.expand(o.val.func.value))]
+        st = [o for o in p.ops if o.kind == 'attr_store' and txt(o.val) == 'self._tell']
+        if bw and st:
+            n_w += 1
+            ok = all(s_.seq > bw[-1].seq for s_ in st)
+            ctx.ob('T9.tellafter', swr.fq, 'the code-point position is advanced after the data was written (not before a step that can fail)',
+                   ok, loc=loc(swr, st[0].node), path=p.describe() if not ok else None)
+    if n_w == 0:
+        ctx.unknown('T9.tellafter', swr.fq, 'no path with a buffer write and a _tell store found', swr.loc)
     # a size taken from the file descriptor (os.fstat / os.stat on fileno) sees only flushed data: on every path it is
     # preceded by a call that flushes the buffered temporary file (seek or flush on self / self.buffer)
     n_stat = 0
